@@ -4,8 +4,10 @@ package crypto
 
 import (
 	"context"
+	"crypto/sha256"
 	"errors"
 
+	"github.com/nspcc-dev/neo-go/pkg/util"
 	"github.com/nspcc-dev/neofs-node/internal/vrt"
 	"github.com/nspcc-dev/neofs-node/pkg/network/peerauth"
 	protoobject "github.com/nspcc-dev/neofs-sdk-go/proto/object"
@@ -60,4 +62,75 @@ func VerifC33Exemption() {
 		vrt.Reach("exempt")
 	}
 	VerifHookChain, peerauth.VerifHookTrusted = nil, nil
+}
+
+// c33part is one signed part of a single-layer request.
+type c33part struct {
+	data   []byte
+	invoc  []byte // the invocation script (signature) the signer made for this part
+	forged bool
+}
+
+// VerifC33N3Witnesses: a request signed with the N3 scheme by a contract
+// account; the SDK's walk hands every signed part (meta header, body, origin
+// link) with its witness to the node's callback; the FS chain run of a witness
+// is a verdict: it succeeds only for the part's own data and the witness made
+// for it. An adversary replaces the data of some parts and moves witnesses
+// between parts. The request is accepted only if every part carries the
+// witness made for exactly its bytes.
+func VerifC33N3Witnesses() {
+	verif := []byte{0x40, 0x41}
+	parts := []*c33part{
+		{data: []byte("meta header"), invoc: []byte{1}},
+		{data: []byte("body"), invoc: []byte{2}},
+		{data: []byte("origin"), invoc: []byte{3}},
+	}
+	// the FS chain accepts a witness exactly for the data it was made for
+	VerifHookN3 = func(_ uint32, _ util.Uint160, invoc, vs []byte, dataHash [sha256.Size]byte) error {
+		if len(invoc) == 1 && len(vs) == 2 && vs[0] == verif[0] {
+			for _, p := range parts {
+				if p.invoc[0] == invoc[0] && dataHash == sha256.Sum256(p.data) {
+					return nil
+				}
+			}
+		}
+		return errors.New("witness does not verify")
+	}
+	// what the adversary sends
+	type sent struct{ data, invoc []byte }
+	var msg []sent
+	authentic := true
+	for i, p := range parts {
+		s := sent{data: p.data, invoc: p.invoc}
+		if vrt.Bool("partModified") {
+			s.data = append([]byte("evil "), p.data...)
+			authentic = false
+		}
+		w := vrt.Choice("witnessTakenFromPart", len(parts))
+		s.invoc = parts[w].invoc
+		if w != i {
+			authentic = false
+		}
+		msg = append(msg, s)
+	}
+	VerifHookChainN3 = func(verifyN3 func(data, invocScript, verifScript []byte) error) error {
+		for _, s := range msg {
+			if err := verifyN3(s.data, s.invoc, verif); err != nil {
+				return err
+			}
+		}
+		return nil
+	}
+	req := new(protoobject.HeadRequest)
+	req.MetaHeader = &protosession.RequestMetaHeader{Ttl: 2}
+	req.VerifyHeader = new(protosession.RequestVerificationHeader)
+	err := VerifyRequestSignaturesN3(context.Background(), req, nil) // the FS chain run is the verdict hook
+	if err == nil {
+		vrt.Assert(authentic, "a request is accepted only if every signed part carries the witness made for exactly its bytes")
+		vrt.Reach("n3-accepted")
+	} else {
+		vrt.Assert(!authentic, "an authentically signed request is accepted")
+		vrt.Reach("n3-rejected")
+	}
+	VerifHookChainN3, VerifHookN3 = nil, nil
 }
